@@ -142,6 +142,7 @@ class JobWorld:
         self.jobs: dict = {}            # key -> Job
         self.launch_log = []            # every launch, in order: (point, name, submit)
         self.submit_failed = set()
+        self.duplicates = []
     def launch(self, point, name, submit):
         """A jobs-submit command really executes for this job. Returns True if the job now exists."""
         key = (point, name, submit)
@@ -150,8 +151,10 @@ class JobWorld:
         if not oc.get("submit_ok", True):
             self.submit_failed.add(key)
             return False
-        if key not in self.jobs:
-            self.jobs[key] = Job(point, name, submit, list(oc["script"]))
+        if key in self.jobs:
+            # the same job is launched again (same submit number): the job script runs afresh
+            self.duplicates.append(key)
+        self.jobs[key] = Job(point, name, submit, list(oc["script"]))
         return True
     def step(self, key):
         """Advance one job by one step; returns the message it sends (or None)."""
